@@ -361,6 +361,15 @@ func (c *Context) Quo(d, x, y *Decimal) (Condition, error) {
 				// setExponent.
 				nd = unknownNumDigits
 			}
+		} else {
+			// The result is subnormal and setExponent will round it to
+			// Etiny. Keep the non-zero remainder as a sticky digit below
+			// the quotient so that it takes part in that rounding and is
+			// reported as Inexact.
+			d.Coeff.Mul(&d.Coeff, bigTen)
+			d.Coeff.Add(&d.Coeff, bigOne)
+			carry = -1
+			nd = unknownNumDigits
 		}
 	}
 
